@@ -40,6 +40,10 @@ const (
 	// delay are not aligned to whole seconds
 	TimeUnit = 100 * time.Millisecond
 	ModName  = "vmod" // the test module owning module contexts
+	// a second test module that registered a response callback only, and a third that registered nothing:
+	// the keeper must not open a context for either
+	ModNameRespOnly = "vmodr"
+	ModNameNone     = "vmodn"
 )
 
 // Params in model terms
@@ -234,6 +238,11 @@ func NewChain(p MParams, names []string, bal map[string]int64) *Chain {
 		a := activeChain
 		a.cbs = append(a.cbs, Callback{Kind: "state", ID: a.CtxIDs[string(id)], Outs: []string{}, Cause: cause})
 		a.react(ctx, id, 1)
+	})
+
+	_ = c.K.RegisterResponseCallback(ModNameRespOnly, func(ctx sdk.Context, id tmbytes.HexBytes, outs []string, err error) {
+		a := activeChain
+		a.cbs = append(a.cbs, Callback{Kind: "resp", ID: a.CtxIDs[string(id)], Outs: append([]string{}, outs...), Err: err != nil})
 	})
 
 	service.EndBlockHook = nil
